@@ -3,6 +3,7 @@ package main
 import (
 	"encoding/base64"
 	"fmt"
+	"os"
 	"path/filepath"
 	"regexp"
 	"sort"
@@ -508,6 +509,25 @@ func checkC16(tier string) {
 		}
 	}
 
+	// permanent corpus: replays of fixed and known findings and hand-kept boundary scenarios
+	if ents, err := os.ReadDir(filepath.Join(verifDir, "corpus", "c16")); err == nil {
+		for _, e := range ents {
+			if filepath.Ext(e.Name()) != ".json" {
+				continue
+			}
+			sc, err := loadScenario(filepath.Join(verifDir, "corpus", "c16", e.Name()))
+			if err != nil {
+				harnessFail("corpus scenario %s: %v", e.Name(), err)
+			}
+			sc.Expect = nil
+			sc.TickBudget = budget
+			sc.Note = "corpus:" + e.Name()
+			c.count("corpus_scenarios", 1)
+			if v := judgeC16(c, sc); v != nil {
+				bads = append(bads, bad{sc, v})
+			}
+		}
+	}
 	c.phase(fmt.Sprintf("shrinking and reporting (%d raw violations)", len(bads)))
 	sort.SliceStable(bads, func(i, j int) bool { return scenarioSize(bads[i].sc) < scenarioSize(bads[j].sc) })
 	seenSig := map[string]bool{}
